@@ -43,7 +43,7 @@ LEVEL = "exploration"
 BACKENDS = ("python", "rust", "default", "auto")
 SO_NAME = "_solvor_rust.cpython-312-x86_64-linux-gnu.so"
 CARGO_TARGET = os.path.join(VERIF, ".cache", "cargo-target")
-CASE_ALARM_S = 20  # a Python-level hang of one case
+CASE_ALARM_S = 60  # CPU seconds: a Python-level hang of one case
 FLOAT_SLACK = 1e-9  # only for inputs whose weights are not exactly summable (flag exact=False)
 
 
@@ -267,16 +267,17 @@ def _eval_case(case):
     backends = case.get("backends") or BACKENDS
     R = {}
     cur = None
-    signal.signal(signal.SIGALRM, _on_alarm)
-    signal.alarm(CASE_ALARM_S)
+    signal.signal(signal.SIGVTALRM, _on_alarm)
+    signal.setitimer(signal.ITIMER_VIRTUAL, CASE_ALARM_S)
     try:
-        for cur in backends:
-            R[cur] = _observe(case, cur)
-        cur = None
+        try:
+            for cur in backends:
+                R[cur] = _observe(case, cur)
+            cur = None
+        finally:
+            signal.setitimer(signal.ITIMER_VIRTUAL, 0)
     except _Alarm:
-        R[cur] = {"exc": f"Timeout: no result within {CASE_ALARM_S} s"}
-    finally:
-        signal.alarm(0)
+        R[cur if cur is not None else backends[-1]] = {"exc": f"Timeout: no result within {CASE_ALARM_S} s of CPU time"}
     for b in backends:
         R.setdefault(b, {"exc": "not run (an earlier back end timed out)"})
 
